@@ -384,3 +384,26 @@ def fill_loops(ctx, P):
                         bad = w
         ctx.check('%s:S09-5:fill-propagates:%s' % (P, path), 'R-dom', '%s: an error of the source call reaches no Ok result except through a new source call (returned, or retried for Interrupted); never turned into a short count' % path,
                   bool(src) and nerr >= 1 and bad is None, function=path, witness=fmt_path(b, bad) if bad else None)
+
+
+def no_multi_octet_match_on_transient_slice(ctx, P):
+    """A function that works on the slice returned by the source's `fill_buf()` sees an arbitrary fragment of
+    the stream.  A decision that looks at two or more adjacent octets of that slice (starts_with / ends_with / windows / strip_prefix
+    on it) gives a different answer when the fragment boundary falls inside the pattern, unless state is carried — so the result
+    depends on how the source delivers data.  Expected count: zero; the per-octet transducers compare single octets."""
+    n = 0
+    for p, r in sorted(ctx.f.bodies.items()):
+        if r.get('derived') or '::tests::' in p:
+            continue
+        b = ctx.wrap(r)
+        if not b.calls(r'BufRead::fill_buf$'):
+            ctx.functions.discard(p)
+            continue
+        n += 1
+        bad = []
+        for i, t in b.calls(r'\]>::(starts_with|ends_with|windows|strip_prefix|strip_suffix|array_windows|chunks|chunks_exact)$'):
+            if t['args'] and has_origin(b.operand_origins(t['args'][0]), r'call:.*BufRead::fill_buf$'):
+                bad.append('%s at %s' % (t['f']['fn'].split('::')[-1], site(b, i)))
+        ctx.check('%s:transient-slice:%s' % (P, p), 'R-who', '%s takes per-octet decisions on the slice handed out by fill_buf (no multi-octet pattern match that a fragment boundary can split)' % p.split(' as ')[0].lstrip('<'),
+                  not bad, function=p, missing=bad or None)
+    ctx.floor(P + ':transient-slice:floor', 'functions working on a fill_buf slice', n, 3)
